@@ -425,6 +425,9 @@ class Real:
                     rkth_out_path=str(self.scratch / "hash.bin"), search_paths=[str(self.scratch)],
                     signature_provider=self.sp[1] if self.sp[0] == "ok" else None)
         except Hang:
+            if os.environ.get("VERIF_DEBUG"):
+                import traceback
+                traceback.print_exc()
             return "HANG", None
         except Exception:  # noqa: BLE001
             return "E", None
